@@ -208,6 +208,7 @@ func c17Systematic() []ref.Expr {
 			&ref.Lit{V: ref.Float(1500), Src: "1.5e3"}, &ref.Lit{V: ref.Float(1e21), Src: "1e21"}, &ref.Lit{V: ref.Float(1e-7), Src: "1e-7"}, &ref.Lit{V: ref.Float(2)},
 			&ref.Lit{V: ref.Float(-3)}, &ref.Lit{V: ref.Float(6.02e23), Src: "6.02e23"}, &ref.Lit{V: ref.Int(31), Src: "0x1F"},
 			&ref.Lit{V: ref.Str("a'b\\c\nd\re\tf\bg\fh\"i")}, &ref.Lit{V: ref.Str("é"), Src: `'é'`}, &ref.Lit{V: ref.Str("😀")},
+			&ref.Lit{V: ref.Str("\\u0041")}, &ref.Lit{V: ref.Str("\\n")}, &ref.Lit{V: ref.Str("a\\u2028b")}, &ref.Lit{V: ref.Str("\\\\u00e9")}, &ref.MapLit{Keys: []string{"\\u0041", "\\t"}, Vals: []ref.Expr{one, two}},
 			&ref.Lit{V: ref.Str("}")}, &ref.Lit{V: ref.Str("{")}, &ref.Lit{V: ref.Str("a{b}c")}, &ref.Lit{V: ref.Str("{{x}}")}, &ref.Lit{V: ref.Str("/}")}, &ref.Lit{V: ref.Str("{/msg}")},
 			&ref.MapLit{Keys: []string{"}", "{k}"}, Vals: []ref.Expr{one, &ref.Lit{V: ref.Str("}")}}},
 			&ref.Lit{V: ref.Str("\u00e9\tb")}, &ref.Lit{V: ref.Str("caf\u00e9\n")}, &ref.Lit{V: ref.Str("\u4e2d\n\u6587")}, &ref.Lit{V: ref.Str("\U0001F600\\x")}, &ref.Lit{V: ref.Str("\u00fc'\u00e9\n\u00ff\u0100")},
@@ -221,6 +222,52 @@ func c17Systematic() []ref.Expr {
 			&ref.ListLit{Items: []ref.Expr{&ref.Tern{C: x, A: one, B: two}, &ref.Binary{Op: "?:", L: y, R: z}, &ref.Unary{Op: "-", X: one}}},
 		}
 		c17Sys = append(c17Sys, extra...)
+		// containers inside containers: an inner map or list of every small size at every position of an outer
+		// map or list of every small size (a printer that borrows scratch storage per level goes wrong only for
+		// some size/position pairs), and the same one level deeper
+		mk := func(isMap bool, n int, at int, inner ref.Expr) ref.Expr {
+			keys := []string{"a", "b", "c", "d"}
+			if isMap {
+				m := &ref.MapLit{}
+				for i := 0; i < n; i++ {
+					m.Keys = append(m.Keys, keys[i])
+					if i == at {
+						m.Vals = append(m.Vals, inner)
+					} else {
+						m.Vals = append(m.Vals, &ref.Lit{V: ref.Int(int64(i + 3))})
+					}
+				}
+				return m
+			}
+			l := &ref.ListLit{}
+			for i := 0; i < n; i++ {
+				if i == at {
+					l.Items = append(l.Items, inner)
+				} else {
+					l.Items = append(l.Items, &ref.Lit{V: ref.Int(int64(i + 3))})
+				}
+			}
+			return l
+		}
+		for _, outerMap := range []bool{true, false} {
+			for n := 1; n <= 4; n++ {
+				for at := 0; at < n; at++ {
+					for _, innerMap := range []bool{true, false} {
+						for m := 0; m <= 4; m++ {
+							inner := mk(innerMap, m, -1, nil)
+							c17Sys = append(c17Sys, mk(outerMap, n, at, inner))
+							if m > 0 && n <= 3 {
+								c17Sys = append(c17Sys, mk(outerMap, n, at, mk(innerMap, m, m-1, mk(true, 3, 0, mk(true, 2, -1, nil)))))
+							}
+						}
+					}
+				}
+			}
+		}
+		// two inner maps side by side, keys out of order in the source
+		c17Sys = append(c17Sys,
+			&ref.MapLit{Keys: []string{"z", "a", "m"}, Vals: []ref.Expr{mk(true, 3, -1, nil), mk(true, 2, -1, nil), mk(true, 4, -1, nil)}},
+			&ref.MapLit{Keys: []string{"b", "a"}, Vals: []ref.Expr{&ref.MapLit{Keys: []string{"y", "x"}, Vals: []ref.Expr{one, two}}, &ref.MapLit{Keys: []string{"q", "p", "o"}, Vals: []ref.Expr{x, y, z}}}})
 		// float literals across the whole range: every decade (where integer conversions, exponent forms and
 		// denormals change the printer's path) with several mantissas, and the powers of two around 2^53 and 2^63
 		for _, f := range gen.FloatLadder() {
